@@ -9,6 +9,8 @@ plan["behaviours"][k]:
    {"b": "ok"}                      answer completely
    {"b": "exit_before", "d": s}     wait s seconds, exit without answering
    {"b": "exit_mid", "cut": f}      write the first fraction f of the answer, exit
+   {"b": "exit_mid", "paren": j}    write the answer up to (and excluding) its j-th closing parenthesis
+                                    counted from the end, exit (a cut on a structural boundary)
    {"b": "exit_after", "d": s}      answer completely, wait s seconds, exit
 Every event is appended to the plan's log file.
 """
@@ -77,7 +79,11 @@ def main():
             log("exit", k)
             os._exit(3)
         if b["b"] == "exit_mid":
-            cut = max(1, int(len(full) * b.get("cut", 0.5)))
+            if "paren" in b:
+                idx = [i for i, ch in enumerate(full) if ch == ")"]
+                cut = idx[-b["paren"]] if len(idx) >= b["paren"] else max(1, len(full) // 2)
+            else:
+                cut = max(1, int(len(full) * b.get("cut", 0.5)))
             sys.stdout.write(full[:cut])
             sys.stdout.flush()
             log("partial", k, cut)
